@@ -14,7 +14,8 @@ from refmodel import counted_keys, independent_entry_valid, keylist_ok, payload_
 from seams import exc_site
 from world_envelope import EnvelopeWorld, ATTACKS
 
-ROLE_POOL = ["key_mgr", "pkg_mgr", "root", "decoy", "key_mgr ", "Key_mgr", "key_mgr.json", "", "é", "pkg_mgr2"]
+ROLE_POOL = ["key_mgr", "pkg_mgr", "root", "decoy", "key_mgr ", "Key_mgr", "key_mgr.json", "", "é", "pkg_mgr2", "pkg_mgr.json", "root.json",
+             "{}", "{0}", "{role}", "key_mgr{0.x}", "%s", "{", "key_mgr_staging", "subroot"]
 MD_TYPES = ["root", "key_mgr", "key_mgr", "pkg_mgr", "Root", "decoy"]
 
 
@@ -57,7 +58,7 @@ class DelegWorld(EnvelopeWorld):
             if md.get("delegations") != dels or md.get("type") != op["type"]:
                 self.run.violate(("C16",), "builder-not-faithful", "delegating metadata does not carry its arguments verbatim")
         else:
-            md = {"type": op["type"], "version": op.get("version", 1), "metadata_spec_version": "0.6.0",
+            md = {"type": op["type"], "version": op.get("version", 1), "metadata_spec_version": op.get("spec", "0.6.0"),
                   "timestamp": "2021-01-01T00:00:00Z", "expiration": "2031-01-01T00:00:00Z", "delegations": dels}
         if op.get("no_version") and md.get("type") != "root":
             md = {k: v for k, v in md.items() if k != "version"}      # legal for non-root metadata: timestamp only
@@ -85,6 +86,26 @@ class DelegWorld(EnvelopeWorld):
             else:
                 gen.set_path(T, op["path"], op["value"])
         self.run.fault("trusted_document_changed_in_place")
+
+    def op_twin_vdel(self, op):
+        """verify_delegation first on a twin of the envelope (one integer respelled as a float, or a CRC twin), then on
+        the genuine envelope: the second verdict must not depend on the first."""
+        e, n = op["env"], op["trusted"]
+        if e >= len(self.envs) or n >= len(self.trusted):
+            return self.run.ev("noop")
+        E, T = self.envs[e], self.trusted[n]
+        tw = self._twin_of(E["signed"], op["kind"])
+        if tw is None:
+            return self.run.ev("noop")
+        role, gpg = op["role"], op["gpg"]
+        E2 = {"signatures": copy.deepcopy(E["signatures"]), "signed": tw}
+        self.run.fault("twin_payload_" + op["kind"])
+        order = [(E2, None), (E, e)] if op.get("twin_first", True) else [(E, e), (E2, None)]
+        for X, idx in order:
+            o = self.calls.call("verify_delegation", role, X, T, gpg=gpg)
+            self._judge_deleg(role, X, T, gpg, o, self.env_faults[e], e=idx)
+            if self.run.stop:
+                return
 
     def op_new_md(self, op):
         md = {"type": op["type"], "version": op.get("version", 1), "metadata_spec_version": op.get("spec", "0.6.0"),
@@ -160,18 +181,18 @@ class DelegWorld(EnvelopeWorld):
                     from core import HarnessError
                     raise HarnessError("delegation model rejects (sigs) but independent verification counts %d" % n_ind)
             if "mismatch" in defects:
-                run.violate(("C06",), "type-mismatch-accepted",
+                run.violate(self.history_tag(("C06",), o, lambda: self.calls.raw("verify_delegation", role, E, T, gpg=gpg)), "type-mismatch-accepted",
                             "metadata whose signed portion is well-formed delegating metadata of type %r was accepted as role %r "
                             "(signature map has %d entries, %d of them valid+authorised)"
                             % (E["signed"].get("type"), role, len(E["signatures"]), k or 0), "type-mismatch-accepted")
             else:
-                run.violate(("C05", "C01"), "deleg-accepted-wrongly",
+                run.violate(self.history_tag(("C05", "C01"), o, lambda: self.calls.raw("verify_delegation", role, E, T, gpg=gpg)), "deleg-accepted-wrongly",
                             "verify_delegation(%r) accepted although the delegation model rejects: %s (valid authorised signers %r, "
                             "threshold %r)" % (role, sorted(defects), k, t), "deleg-accepted:" + "+".join(sorted(defects)))
             return
         if not o.ok and accept and plain:
             site = exc_site(lib, o.exc)
-            run.violate(("C05", "C02"), "deleg-rejected-wrongly",
+            run.violate(self.history_tag(("C05", "C02"), o, lambda: self.calls.raw("verify_delegation", role, E, T, gpg=gpg)), "deleg-rejected-wrongly",
                         "verify_delegation(%r) raised %s (%s) at %s although the role is delegated and %d >= %d of its keys signed"
                         % (role, o.cls, str(o.exc)[:160], site, k, t), "deleg-rejected:%s@%s" % (o.cls, site))
             return
@@ -198,6 +219,8 @@ class DelegWorld(EnvelopeWorld):
         roles = rng.sample(ROLE_POOL, nroles or rng.randint(1, 4))
         if rng.random() < 0.8 and "key_mgr" not in roles:
             roles[0] = "key_mgr"
+        if rng.random() < 0.25:
+            roles = [r for r in roles if r != "key_mgr"] + [rng.choice(["key_mgr.json", "key_mgr_staging", "pkg_mgr.json"])]
         spec = {}
         for r in roles:
             idx = sorted(rng.sample(range(nk), rng.randint(0, min(nk, 4))))
@@ -210,6 +233,9 @@ class DelegWorld(EnvelopeWorld):
         if not self.trusted or (len(self.trusted) < 3 and rng.random() < 0.05):
             op = {"op": "trusted", "type": rng.choice(["root", "key_mgr"]), "dels": self._gen_dels(rng),
                   "version": rng.choice([1, 2, 7]), "via": rng.choice(["builder", "direct"]), "no_version": rng.random() < 0.2}
+            if rng.random() < 0.3:
+                op["spec"] = rng.choice(["0.0.5", "0.0.12", "0.1.0", "1.0.0", "0.6.1", "0.5"])
+                op["via"] = "direct"
             if rng.random() < 0.12:
                 fake = {"signatures": {}, "signed": {"type": "root", "version": 1, "metadata_spec_version": "0.6.0",
                         "timestamp": "", "expiration": "", "delegations": self._dels(op["dels"])}}
@@ -254,6 +280,9 @@ class DelegWorld(EnvelopeWorld):
             gpg = self.env_gpg[e] if rng.random() < 0.9 else (not self.env_gpg[e])
             if rng.random() < 0.02:
                 gpg = rng.choice([None, 1, 0, "yes"])
+            if rng.random() < 0.12 and isinstance(role, str) and gpg in (True, False):
+                return {"op": "twin_vdel", "role": role, "env": e, "trusted": n, "gpg": gpg, "kind": rng.choice(["pyeq", "pyeq", "crc"]),
+                        "twin_first": rng.random() < 0.7}
             return {"op": "vdel", "role": role, "env": e, "trusted": n, "gpg": gpg}
         if r < 0.50 and self.trusted:
             n = rng.randrange(len(self.trusted))
